@@ -504,6 +504,45 @@ def _r5_structural(ctx):
              f'sample and feature values are read from the same read via readTag ({len(rt)} reads, all of `{rd0}`)', key='same-read', nontrivial=False)
 
 
+def blacklist_scan_model(ctx):
+    """read_should_be_counted run by the abstract interpreter with every other filter switched off, on a blacklist whose intervals are NOT in coordinate order: a read well
+    inside any interval of its contig is refused - whichever position the interval has in the list - and a read clear of all of them, or on a contig without entries, is
+    counted.  (ok, cases, witness) or None outside the interpreted subset."""
+    from ..consteval import module_scope, Evaluator, Instance, Unfoldable, Raised
+    g = ctx.fn(COUNTTABLE, RS)
+    try:
+        env = module_scope(ctx.ix, COUNTTABLE)
+        fns = [g] + [v.fdef for v in env.values() if type(v).__name__ == 'LocalFn']
+        arg_attrs = {x.attr for fd in fns for x in ast.walk(fd) if isinstance(x, ast.Attribute) and isinstance(x.value, ast.Name) and x.value.id == 'args'}
+        read_attrs = {x.attr for fd in fns for x in ast.walk(fd) if isinstance(x, ast.Attribute) and isinstance(x.value, ast.Name) and x.value.id == 'read' and isinstance(x.ctx, ast.Load)}
+        black = {'chr1': [(500, 600), (100, 200), (300, 400)], 'chr2': [(0, 1000)]}
+        n = 0
+        for contig, start, want in (('chr1', 120, False), ('chr1', 320, False), ('chr1', 520, False), ('chr1', 700, True), ('chr1', 10, True), ('chr2', 10, False), ('chr3', 120, True)):
+            n += 1
+            a = Instance(attrs={k: None for k in arg_attrs})
+            a.attrs.update({k: False for k in arg_attrs if k.startswith(('filter', 'no_', 'proper', 'r1only', 'r2only', 'dedup'))})
+            a.attrs.update({'minMQ': 0, 'max_base_edits': None})
+            r = Instance(attrs={k: False for k in read_attrs})
+            r.attrs.update({'reference_name': contig, 'reference_start': start, 'reference_end': start + 30, 'mapping_quality': 60, 'cigarstring': '30M', 'is_read1': True, 'is_read2': False})
+
+            def hook(ev, call, env_):
+                if isinstance(call.func, ast.Attribute) and call.func.attr in ('has_tag', 'get_tag') and isinstance(ev.ev(call.func.value, env_), Instance):
+                    if call.func.attr == 'has_tag':
+                        return False
+                    raise Raised('KeyError', 'tag')
+                return NotImplemented
+            e = dict(env)
+            e.update({'r': r, 'a': a, 'b': {k: list(v) for k, v in black.items()}})
+            got = Evaluator(e, budget=100000, call_hook=hook).ev(ast.parse(f'{RS}(r, a, b)', mode='eval').body, e)
+            if bool(got) != want:
+                return False, n, {'blacklist (file order)': black, 'read': f'{contig}:{start}-{start + 30}', 'counted': bool(got), 'expected': want}
+        return True, n, None
+    except (Unfoldable, Raised, Exception) as e_:
+        ctx._blacklist_model_error = f'{type(e_).__name__}: {str(e_)[:100]}'
+        return None
+
+
+
 @rule('C11', 'C11-R6', 'a read is counted under its own values and every blacklisted interval is consulted: tag / attribute values are never tested for '
                        'truth (0 and "" are legitimate values), the placeholder is returned only when reading the value failed, and the blacklist scan '
                        'has no early exit')
@@ -527,6 +566,15 @@ def r6(ctx):
              'readTag: a normal (non-exception) path returns the placeholder instead of the value read', key='readTag:placeholder-only-on-failure')
     g = ctx.fn(COUNTTABLE, 'read_should_be_counted')
     loops = [l for l in walk_no_nested(g) if isinstance(l, ast.For) and 'blacklist' in src(l.iter)]
+    if not loops:
+        # the scan lives in a helper: the filter as a whole is run on an unsorted blacklist instead
+        m = blacklist_scan_model(ctx)
+        if m is not None:
+            ctx.counters['interpreted_cases'] = ctx.counters.get('interpreted_cases', 0) + m[1]
+            ctx.emit('C11-R6', m[0], COUNTTABLE, g, f'read_should_be_counted interpreted on {m[1]} reads against an unsorted blacklist: a read inside any listed interval is refused, all others are counted' if m[0] else
+                     f'blacklist scan: {m[2]} - an interval of the list is not consulted (or a read outside every interval is refused)', key='blacklist-scan-complete', witness=m[2],
+                     what='read_should_be_counted: the blacklist scan has an early exit')
+            return
     ctx.need('C11-R6', len(loops), 1, 'blacklist scan loops in read_should_be_counted')
     for l in loops:
         brk = [x for x in walk_no_nested(l) if isinstance(x, ast.Break)]
